@@ -252,6 +252,35 @@ fn unconnected_exec(kind: usize, ctx: &WorkerCtx) -> ExecResult {
             if r.is_ok() { res.violations.push(("connect succeeded although the peer refused".into(), json!({}))); }
             peer_opt = Some(peer);
         }
+        if kind == 2 || kind == 3 {
+            // the handshake runs to its last message, which carries a wrong digest (2) or never comes (3: the peer closes)
+            let h = tokio::spawn(async move { let r = conn.connect().await; (conn, r) });
+            let mut peer = match w.accept_peer().await { Some(p) => p, None => { res.violations.push(("library never connected".into(), json!({}))); return res; } };
+            if let Err(e) = w.peer_handshake_mode(&mut peer, crate::c17::flags_default(), &[], if kind == 2 { 1 } else { 2 }).await { res.violations.push(("handshake script failed".into(), json!({"error": e}))); return res; }
+            let mut h = h;
+            for _ in 0..200_000 { w.yield_once().await; if h.is_finished() { break; } }
+            if !h.is_finished() { res.violations.push(("connect did not return after a failed handshake".into(), json!({"kind": kind}))); return res; }
+            let (c, r) = (&mut h).await.unwrap();
+            conn = c;
+            if r.is_ok() { res.violations.push(("connect succeeded although the peer did not prove the cookie".into(), json!({"kind": kind}))); }
+            peer.pump();
+            peer_opt = Some(peer);
+        }
+        if kind == 4 {
+            // a connection that was established and then closed by the caller
+            let h = tokio::spawn(async move { let r = conn.connect().await; (conn, r) });
+            let mut peer = match w.accept_peer().await { Some(p) => p, None => { res.violations.push(("library never connected".into(), json!({}))); return res; } };
+            if let Err(e) = w.peer_handshake(&mut peer, crate::c17::flags_default()).await { res.violations.push(("handshake failed".into(), json!({"error": e}))); return res; }
+            let mut h = h;
+            loop { w.yield_once().await; if h.is_finished() { break; } }
+            let (c, r) = (&mut h).await.unwrap();
+            conn = c;
+            if r.is_err() { res.violations.push(("connect failed under a conforming peer".into(), json!({}))); return res; }
+            let _ = conn.close().await;
+            let no_probe = || 0u64;
+            w.settle(&mut peer, &no_probe).await;
+            peer_opt = Some(peer);
+        }
         let before = peer_opt.as_ref().map(|p| p.log.len()).unwrap_or(0);
         for op in op_list(false).into_iter().take(20) {
             res.steps += 1;
@@ -345,12 +374,58 @@ fn concurrent(ch: &mut Chooser, ctx: &WorkerCtx, ntasks: usize, per_task: usize)
     })
 }
 
+/// A peer that stops reading while a message larger than the socket buffers is being written, a second sender queued
+/// behind it, two minutes of (virtual) time, then the peer reads again and a third message follows. Whatever the sends
+/// returned, the byte stream must consist of whole, well-formed frames, one per successful send.
+fn stalled_exec(big_mib: &usize, ctx: &WorkerCtx) -> ExecResult {
+    let big_mib = *big_mib;
+    run_rt(async move {
+        let mut res = ExecResult::default();
+        let mut nw = match node_world(ctx, flags_default()).await { Ok(x) => x, Err(e) => { res.violations.push(("could not establish the connection under a conforming peer".into(), json!({"error": e}))); return res; } };
+        nw.w.gates.set_active(&[]);
+        let results: Arc<Mutex<Vec<(char, bool)>>> = Arc::new(Mutex::new(vec![]));
+        let mk = |tag: char, size: usize| OwnedTerm::Tuple(vec![OwnedTerm::Atom(Atom::new(tag.to_string())), OwnedTerm::Binary(vec![tag as u8; size])]);
+        let spawn_send = |tag: char, size: usize, to: u32| {
+            let (node, results, msg) = (nw.node.clone(), results.clone(), mk(tag, size));
+            tokio::spawn(async move { let r = node.send(&pid_remote(to), msg).await; results.lock().unwrap().push((tag, r.is_ok())); })
+        };
+        let _a = spawn_send('A', big_mib << 20, 10);
+        for _ in 0..300 { nw.w.yield_once().await; }
+        let _b = spawn_send('B', 64, 11);
+        for _ in 0..300 { nw.w.yield_once().await; }
+        tokio::time::advance(std::time::Duration::from_secs(120)).await;
+        for _ in 0..300 { nw.w.yield_once().await; }
+        let probe = { let r = results.clone(); move || r.lock().unwrap().len() as u64 };
+        nw.w.settle(&mut nw.peer, &probe).await;
+        let c = spawn_send('C', 64, 12);
+        nw.w.settle(&mut nw.peer, &probe).await;
+        for _ in 0..50 { if c.is_finished() { break; } nw.w.settle(&mut nw.peer, &probe).await; }
+        let (frames, rest) = nw.peer.dist_frames();
+        let done = results.lock().unwrap().clone();
+        let tags: Vec<String> = frames.iter().map(|f| match read_pass_through(f) { Ok(DistMsg { payload: Some(RefVal::Tuple(t)), .. }) if t.len() == 2 => t[0].short(), Ok(_) => "other".into(), Err(_) => "MALFORMED".into() }).collect();
+        let detail = json!({"payload_mib": big_mib, "sends_returned": done.iter().map(|(t, ok)| format!("{}:{}", t, if *ok { "ok" } else { "error" })).collect::<Vec<_>>(), "frames_on_the_wire": tags, "stray_bytes_after_last_whole_frame": rest.len()});
+        if !rest.is_empty() || tags.iter().any(|t| t == "MALFORMED") {
+            res.violations.push(("a send that gave up left part of a frame on the wire".into(), detail.clone()));
+        }
+        for (t, ok) in &done {
+            let n = tags.iter().filter(|x| x.trim_matches('\'') == t.to_string()).count();
+            if *ok && n != 1 { res.violations.push(("a successful send does not correspond to exactly one frame".into(), detail.clone())); }
+        }
+        if done.len() != 3 { res.violations.push(("a send never returned although the peer resumed reading".into(), detail.clone())); }
+        res.steps = 3;
+        res.outcome = format!("stalled {:?} {:?}", done, tags);
+        res
+    })
+}
+
 pub fn run(rep: &Report) -> Value {
     let thorough = rep.thorough();
     let modes = [false, true];
     let st_inputs: Stats = for_all(rep, "operations x arguments x framing mode", &modes, |m, ctx| inputs_exec(*m, thorough, ctx));
-    let kinds = [0usize, 1];
+    let kinds = [0usize, 1, 2, 3, 4];
     let st_unc: Stats = for_all(rep, "operations before the handshake completed", &kinds, |k, ctx| unconnected_exec(*k, ctx));
+    let sizes = [24usize];
+    let st_stall: Stats = for_all(rep, "peer stops reading in the middle of a large frame", &sizes, |k, ctx| stalled_exec(k, ctx));
     let orders = [true, false];
     let st_re: Stats = for_all(rep, "one Connection, two sessions with different negotiated framing", &orders, |o, ctx| reconnect_exec(*o, ctx));
     let n_ops = op_list(thorough).len();
@@ -361,7 +436,7 @@ pub fn run(rep: &Report) -> Value {
         let st = explore(rep, &name, b, std::time::Duration::from_secs(if thorough { 600 } else { 30 }), |ch, ctx| concurrent(ch, ctx, t, p));
         conc.push((name, st));
     }
-    let states = st_inputs.executions + st_unc.executions + st_re.executions + conc.iter().map(|c| c.1.executions).sum::<u64>();
+    let states = st_inputs.executions + st_unc.executions + st_re.executions + st_stall.executions + conc.iter().map(|c| c.1.executions).sum::<u64>();
     let transitions = st_inputs.transitions + st_unc.transitions + st_re.transitions + conc.iter().map(|c| c.1.transitions).sum::<u64>();
     let mut samples = vec![json!({"operation": op_list(false)[3].short()}), json!({"operation": op_list(false)[op_list(false).len() - 5].short()})];
     for c in &conc { samples.extend(c.1.samples.iter().take(1).cloned()); }
